@@ -144,23 +144,3 @@ Print Assumptions g_compl_sweep_eq.
 Print Assumptions g_compl_fetch_eq.
 Print Assumptions g_merged_fetch_forward_eq.
 Print Assumptions g_buffered_fetch_eq.
-
-(* ---- generic facts about the loop combinators of Model/Loop.v (used by GenEq2, GenEq3, ...) ---- *)
-(* a `for` loop of a procedure whose body always falls through is a left fold *)
-Lemma iter_for_fold {S A R : Type} (body : S -> A -> step S R) (post : S -> R) (f : S -> A -> S) :
-  (forall s x, body s x = SCont (f s x)) ->
-  forall xs s, iter_for body post s xs = post (fold_left f xs s).
-Proof.
-  intros Hb. induction xs as [|x r IH]; intro s; cbn [iter_for fold_left]; [reflexivity|].
-  rewrite Hb. apply IH.
-Qed.
-
-(* a `for` loop of a generator whose body always falls through and keeps no state *)
-Lemma run_for_flat_map {A B : Type} (body : unit -> A -> list B * unit * ctl) (post : unit -> list B)
-      (f : A -> list B) :
-  (forall x, body tt x = (f x, tt, Cont)) ->
-  forall xs, run_for body post tt xs = flat_map f xs ++ post tt.
-Proof.
-  intros Hb. induction xs as [|x r IH]; cbn [run_for flat_map]; [reflexivity|].
-  rewrite Hb, IH, app_assoc. reflexivity.
-Qed.
